@@ -550,3 +550,7 @@ mod tests {
         }
     }
 }
+
+#[cfg(kani)]
+#[path = "/verif/kani/in/encoding__adaptive_le.rs"]
+mod verif_harness;
